@@ -216,7 +216,7 @@ PROPS = {
                  "before each evaluate (sound because of conn_invariant: nothing is in flight between evaluations)"],
     ),
     "C07": dict(
-        thm=["Bgpfu.Thm.C07"],
+        thm=["Bgpfu.Thm.C07", "Bgpfu.Thm.C05"],
         ops=[("frame", ["only-close"]), ("sched", ["only-close"])],
         level_text="Theorems: for every buffer content and every sequence of read results the receive loop never spins and "
                    "can only stay blocked while the stream is open; EOF / I/O error at any point yields an error, again on "
@@ -309,7 +309,7 @@ PROPS = {
         trusted=["iri-string URI parsing (oracle)", "quick-xml tokenisation"],
     ),
     "C14": dict(
-        thm=["Bgpfu.Thm.C14"],
+        thm=["Bgpfu.Thm.C14", "Bgpfu.Thm.C05"],
         ops=[("fuzz", [])],
         level_text="Theorems over EVERY event list (well-formed or not, tokenizer errors and EOF anywhere): every reader "
                    "loop consumes at least one event per iteration and never needs more than evs.length+1 iterations "
